@@ -136,6 +136,7 @@ func runC07(c *Ctx) {
 		add("ANCH<=4", anch, o+"m", anchProf, 4)
 		add("BAL", balFamily(), o, profP0, 5)
 		add("CORPUS", corpus, o, profCorpus, 3)
+		add("LIM", limFamily(), o, profCorpus, 2)
 	}
 	add("LOOK", lookF, "", profP0, 4)
 	add("ZW<=4", zw4, "", profP2, 4)
